@@ -326,9 +326,19 @@ def run_relation(case, ctx):
 def run_system(case, ctx):
     n = case['n']; rels = case['rels']; locs = case['locals']; tol = case['tol']; rel = case['rel']
     text = sg.system_text(case)
-    solvers, generate_constraint = _build(case, text)
-    ctx.expect(len(solvers) == len(rels), 'C13.one_solver_per_line', lambda: dict(text=text, n=len(solvers)))
     join = case['join']
+    tl = [l for l in text.split('\n') if l.strip()]
+    cut = case['seed'] % len(tl) if len(tl) >= 2 else 0
+    if join is None and cut and case['seed'] % 3 == 0 and not case.get('extra'):     # (an 'extra' line shares its left-hand variable with another line: the parser coordinates those only within one string)
+        # the same relations handed over as a tuple of constraint strings (a nested tuple of solvers comes back, which
+        # generate_constraint documents to accept): still 'several relations ... all of them at once'
+        solvers, generate_constraint = _build(case, ('\n'.join(tl[:cut]), '\n'.join(tl[cut:])))
+        ctx.label('tuple-of-strings')
+        ctx.expect(sum(len(g) for g in solvers) == len(rels), 'C13.one_solver_per_line',
+                   lambda: dict(text=text, n=[len(g) for g in solvers]))
+    else:
+        solvers, generate_constraint = _build(case, text)
+        ctx.expect(len(solvers) == len(rels), 'C13.one_solver_per_line', lambda: dict(text=text, n=len(solvers)))
     if join is None:
         c = generate_constraint(solvers)
     else:
